@@ -96,6 +96,8 @@ class Lockstep(vcgen.Unit):
         self.p = pyfunc
         self.ev.emit_safety = False
         self.ev.assume_store_fits = False
+        if hasattr(self, "_orig_store"):
+            self.ev.store = self._orig_store      # store assertions belong to the S/F run, not to the lockstep walk
         self.pev = sym.Evaluator(pyfunc)      # python-side evaluator
         self.pev.emit_safety = False
         self.pev.globals = dict(self.consts)
